@@ -17,7 +17,7 @@ INFO = {
                    "representations, conversions from integers/bytes go through montgomery() and conversions out through "
                    "residue(), the exponent of pow() is NOT converted, and the derived FieldOps routines (neg, modp, inv, "
                    "montgomery, residue, pow) have their defining shapes; (E) equality, constant-time equality, hashing and "
-                   "conditional selection act on the single canonical representation; (M) FieldOps::add and sub and the final correction of both Montgomery multipliers have the reviewed branch-free conditional-subtraction shape on the full (carry, value) pair, and Field255's byte conversions do not mask. NOT decided: the carry-save core of the two Montgomery multipliers as a value identity (R-C09.M checks only their final correction), and the fiat-crypto arithmetic of Field255.",
+                   "conditional selection act on the single canonical representation; (M) the two Montgomery multipliers are verified algebraically for every instantiation (FP32, FP64 single-word; FP128 split-word): the straight-line MIR is turned into single-assignment terms, high parts are eliminated through H = (v - L)/B, and the polynomial identity x*y + m*PRIME = 2^w * (Z + 2^w*CC) is checked over the rationals (m = the quotient digits MU*z mod B, using only the axiom z + PRIME*w = 0 mod B, which R-C09.K's check of MU justifies), together with an interval proof that no machine add, multiply, shift or narrowing leaves its type for the instantiated prime and that Z + 2^w*CC < 2*PRIME; the final correction of the multipliers and FieldOps::add/sub have the reviewed branch-free conditional-subtraction shape (lemma: for V < 2p it returns V mod p); Field255's byte conversions do not mask. Hence mul(x, y) = x*y*2^-w mod PRIME, fully reduced, for all x, y < PRIME - without executing or enumerating anything. NOT decided: the fiat-crypto arithmetic of Field255.",
     "trusted_base": ["rustc const evaluation and MIR construction (nightly)", "Python integer arithmetic (pow, Miller-Rabin with 40 prime bases)",
                      "expression reconstruction over MIR (sa/expr.py)"],
     "assumptions": ["operands of the word-level routines are below PRIME (the representation invariant established by every constructor, R-C09.W)"],
@@ -426,6 +426,38 @@ def run_word_ops(ctx):
                 "%s::mul does not end with the branch-free conditional subtraction of PRIME on the full (carry, product) pair" % nm, loc=f.loc)
     except Skip:
         pass
+    # the carry-save core of the Montgomery multipliers, per instantiation: polynomial identity + range obligations
+    import sle, carry
+    for fld, fp, w, mw in FIELDS:
+        try:
+            fm = ctx.fn(rule, name="mul", id_re=r"^<fp::%s as fp::ops::FieldOps<u%d>>::mul$" % (fp, w))
+            cs = [t for bi, t in fm.body.calls()]
+            tgt = [t for t in cs if t.callee.name == "mul" and ("FieldMulOpsSingleWord" in (t.callee.bestfull or "") or "FieldMulOpsSplitWord" in (t.callee.bestfull or ""))]
+            key = "%s:%s:montgomery-identity" % (rule, fp)
+            if len(tgt) != 1 or len(cs) != 1:
+                ctx.bad(rule, key, "%s::mul does not forward to exactly one of the generic Montgomery multipliers" % fp, loc=fm.loc)
+                continue
+            split = "SplitWord" in tgt[0].callee.bestfull
+            gen = ctx.fn(rule, name="mul", id_re=r"^fp::ops::FieldMulOps%s::mul$" % ("SplitWord" if split else "SingleWord"))
+            pval = const(ctx, rule, fp, w, "PRIME")
+            try:
+                term = sle.straight_line_term(ctx.prog, gen)
+            except sle.NotStraightLine as ex:
+                ctx.bad(rule, key, "the multiplier is not straight-line code (%s): the carry-save identity is not established" % ex, loc=gen.loc)
+                continue
+            parts = cond_sub_parts(term)
+            if parts is None:
+                ctx.bad(rule, key, "the multiplier does not end in the reviewed conditional subtraction; (Z, CC) cannot be identified", loc=gen.loc)
+                continue
+            cv = carry.Carry(w, pval, split)
+            ok, detail = cv.montgomery_goal(*parts)
+            if ok:
+                ctx.ok(rule, key, "%s (%s, w=%d): %s" % (fp, "split-word" if split else "single-word", w, detail), loc=gen.loc,
+                       sample={"rule": rule, "instantiation": fp, "identity": detail[:200], "axioms": sorted(set(cv.notes))})
+            else:
+                ctx.bad(rule, key, "%s (%s multiplier, w=%d): %s" % (fp, "split-word" if split else "single-word", w, detail), loc=gen.loc)
+        except Skip:
+            pass
     # Field255 byte conversions do not mask
     try:
         for f in ctx.fns(rule, 1, name="try_from", self_adt="field::field255::Field255", id_re=r"TryFrom<&"):
@@ -439,7 +471,7 @@ def run_word_ops(ctx):
         req(ctx, rule, "%s:%s" % (rule, f.id), good, "Field255::from(u64) decodes the little-endian bytes without masking", "Field255::from(u64) masks", loc=f.loc)
     except Skip:
         pass
-    ctx.floor(rule, 6)
+    ctx.floor(rule, 9)
 
 
 def run(ctx):
